@@ -50,6 +50,7 @@ def run(tier, replay=None):
 
     fs = [outer.submit(xz_all), outer.submit(lambda: contlib.family_concat_lz(ctx, j, quick, random.Random(seed + 2), pool)[0]), outer.submit(lz_all)]
     scns = [s for f in fs for s in f.result()]
+    scns += contlib.family_long_runs(ctx, j, quick, random.Random(seed + 3))[0]
     outer.shutdown()
     pool.shutdown()
     contlib.finish(ctx, j, scns,
